@@ -344,7 +344,7 @@ func (oa *ordAnalysis) classifyCarried(fn *ssa.Function, h *ssa.BasicBlock, phi 
 		if !h.Dominates(h.Preds[i]) || e == ssa.Value(phi) {
 			continue
 		}
-		for _, l := range phiLeaves(e, map[ssa.Value]bool{}) {
+		for _, l := range phiLeaves(e, map[ssa.Value]bool{phi: true}) { // the carried value itself is not a new value
 			if l == ssa.Value(phi) {
 				continue
 			}
@@ -446,7 +446,7 @@ func (oa *ordAnalysis) checkStore(fn *ssa.Function, h *ssa.BasicBlock, st *ssa.S
 			if (f.Op == token.GTR || f.Op == token.LSS) && f.Y != nil {
 				for _, pair := range [][2]ssa.Value{{f.X, f.Y}, {f.Y, f.X}} {
 					if pair[0] == st.Val {
-						if u, ok := pair[1].(*ssa.UnOp); ok && u.X == ssa.Value(a) {
+						if u, ok := pair[1].(*ssa.UnOp); ok && (u.X == ssa.Value(a) || sameLocalAddr(u.X, st.Addr)) {
 							return ""
 						}
 					}
@@ -475,16 +475,109 @@ func (oa *ordAnalysis) checkStore(fn *ssa.Function, h *ssa.BasicBlock, st *ssa.S
 	return ""
 }
 
+// sameLocalAddr: two address expressions denote the same field (chain) of the same local variable.
+func sameLocalAddr(a, b ssa.Value) bool {
+	if a == b {
+		return true
+	}
+	fa, ok1 := a.(*ssa.FieldAddr)
+	fb, ok2 := b.(*ssa.FieldAddr)
+	if !ok1 || !ok2 || fa.Field != fb.Field {
+		return false
+	}
+	if fa.X == fb.X {
+		_, isAl := fa.X.(*ssa.Alloc)
+		return isAl
+	}
+	return sameLocalAddr(fa.X, fb.X)
+}
+
 // allocAccumulator: a local slice variable (address taken) that collected unordered elements: every load of it after
 // the loop is a tainted value.
 func (oa *ordAnalysis) allocAccumulator(fn *ssa.Function, a *ssa.Alloc, origin string) {
 	for _, f := range funcsWithAnon(fn) {
 		eachInstr(f, func(in ssa.Instruction) {
 			if u, ok := in.(*ssa.UnOp); ok && u.Op == token.MUL && u.X == ssa.Value(a) {
+				if f == fn && cellSortedBefore(fn, a, u) {
+					return // the variable was sorted as a whole and not assigned since
+				}
 				oa.value(f, u, origin)
 			}
 		})
 	}
+}
+
+// cellSortedBefore: the slice variable held in cell a (a captured or address-taken local) is totally sorted by a call
+// that dominates the load, and no assignment to the variable can run after that call (stores in closures count as
+// "can run").
+func cellSortedBefore(fn *ssa.Function, a *ssa.Alloc, load *ssa.UnOp) bool {
+	var sorts []*ssa.Call
+	var stores []ssa.Instruction
+	anonStore := false
+	for _, f := range funcsWithAnon(fn) {
+		eachInstr(f, func(in ssa.Instruction) {
+			switch x := in.(type) {
+			case *ssa.Store:
+				if f == fn && x.Addr == ssa.Value(a) {
+					stores = append(stores, x)
+				}
+				if f != fn {
+					if fv, ok := x.Addr.(*ssa.FreeVar); ok && fv.Name() == a.Comment {
+						anonStore = true
+					}
+				}
+			case *ssa.Call:
+				if f != fn {
+					return
+				}
+				n := calleeName(x)
+				if n != "sort.Strings" && n != "sort.Slice" && n != "sort.SliceStable" && n != "option.Sort" && n != "sort.Ints" {
+					return
+				}
+				arg := x.Call.Args[0]
+				if mi, ok := arg.(*ssa.MakeInterface); ok {
+					arg = mi.X
+				}
+				if u, ok := arg.(*ssa.UnOp); ok && u.Op == token.MUL && u.X == ssa.Value(a) {
+					sorts = append(sorts, x)
+				}
+			}
+		})
+	}
+	if anonStore {
+		return false
+	}
+	ig := buildIG(fn)
+	for _, c := range sorts {
+		dom := false
+		if c.Block() == load.Block() {
+			for _, in := range c.Block().Instrs {
+				if in == ssa.Instruction(c) {
+					dom = true
+					break
+				}
+				if in == ssa.Instruction(load) {
+					break
+				}
+			}
+		} else {
+			dom = c.Block().Dominates(load.Block())
+		}
+		if !dom {
+			continue
+		}
+		seen := ig.reachFrom(ig.after(c), func(ssa.Instruction) bool { return false })
+		clean := true
+		for _, st := range stores {
+			if seen[ig.idx[st]] {
+				clean = false
+			}
+		}
+		if clean {
+			return true
+		}
+	}
+	return false
 }
 
 func (oa *ordAnalysis) checkMapUpdate(fn *ssa.Function, h *ssa.BasicBlock, mu *ssa.MapUpdate, vars []ssa.Value) string {
